@@ -70,7 +70,7 @@ impl<T: RefCnt> HybridProtection<T> {
     fn fallback(node: &LocalNode, storage: &AtomicPtr<T::Base>) -> Self {
         // First, we claim a debt slot and store the address of the atomic pointer there, so the
         // writer can optionally help us out with loading and protecting something.
-        let gen = node.new_helping(storage as *const _ as usize);
+        let (gen, discard) = node.new_helping(storage as *const _ as usize);
         // We already synchronized the start of the sequence by SeqCst in the new_helping vs swap on
         // the pointer. We just need to make sure to bring the pointee in (this can be newer than
         // what we got in the Debt)
@@ -78,7 +78,7 @@ impl<T: RefCnt> HybridProtection<T> {
 
         // Try to replace the debt with our candidate. If it works, we get the debt slot to use. If
         // not, we get a replacement value, already protected and a debt to take care of.
-        match node.confirm_helping(gen, candidate as usize) {
+        let result = match node.confirm_helping(gen, candidate as usize) {
             Ok(debt) => {
                 // The fast path -> we got the debt confirmed alright.
                 Self::from_inner(unsafe { Self::new(candidate, Some(debt)).into_inner() })
@@ -93,7 +93,13 @@ impl<T: RefCnt> HybridProtection<T> {
                 // the slot is paid back.
                 unsafe { Self::new(replacement as *mut _, None) }
             }
+        };
+        // The transaction is over and the helping slot is free again, so now it is safe to let
+        // the node go if the generations overflowed.
+        if discard {
+            node.discard_node();
         }
+        result
     }
 
     #[inline]
